@@ -127,11 +127,13 @@ pub fn document(c: &Value) -> Value {
     }
     let def = c["def"].as_str().unwrap();
     let mut defs = serde_json::Map::new();
-    defs.insert(
-        def.to_string(),
-        json!({"type": "object", "properties": {"inner": {"type": "string"}},
-               "x-rust-type": Value::Object(ext)}),
-    );
+    let mut annotated = json!({"type": "object", "properties": {"inner": {"type": "string"}},
+                               "x-rust-type": Value::Object(ext)});
+    // "dflt": the annotated definition also carries a default
+    if c.get("dflt").and_then(|d| d.as_bool()).unwrap_or(false) {
+        annotated["default"] = json!({"inner": "d"});
+    }
+    defs.insert(def.to_string(), annotated);
     defs.insert("P".into(), json!({"type": "object", "properties": {"q": {"type": "string"}}}));
     defs.insert(
         "User".into(),
